@@ -49,8 +49,40 @@ def model_int(val: Any = 0, base: Any = _MISSING):
     return int(val) if base is _MISSING else int(val, base)
 
 
+def _check_hashable(v) -> None:
+    """What C-level hashing does first: a value whose type has ``__hash__ = None`` (list, dict, set and their subclasses,
+    also inside tuples) is refused with TypeError.  Never realizes anything."""
+    with NoTracing():
+        t = type(v)
+        unhashable = getattr(t, "__hash__", None) is None
+        name = t.__name__
+        items = tuple(v) if t is tuple else ()
+    if unhashable:
+        raise TypeError("unhashable type: '%s'" % name)
+    for x in items:
+        _check_hashable(x)
+
+
+def _lru_call_model(self, *a, **kw):
+    """M11: CrossHair skips ``functools.lru_cache`` caches altogether (it calls the wrapped function), which also skips the
+    hashing of the arguments - and with it the TypeError a real call raises for a list/dict argument.  Keep the skip (a cache
+    must not change results - that is C14's business, decided on real replays), restore the TypeError."""
+    import functools
+
+    if not isinstance(self, functools._lru_cache_wrapper):
+        raise TypeError
+    for x in a:
+        _check_hashable(x)
+    for x in kw.values():
+        _check_hashable(x)
+    return self.__wrapped__(*a, **kw)
+
+
 def install(slices: bool = True, ints: bool = True) -> None:
+    import functools
+
     reg = core._PATCH_REGISTRATIONS
+    reg[functools._lru_cache_wrapper.__call__] = _lru_call_model
     if slices:
         reg[slice.indices] = models.slice_indices
     if ints:
